@@ -3,6 +3,7 @@ import bisect
 import itertools
 import re
 import common as C
+import gen_avl
 from pathlib import Path
 
 PROPERTIES = ["C01"]
@@ -14,12 +15,13 @@ MANIFEST = {
         "design_ref": "DESIGN.md 3/C01",
     }
 }
-PROPS = ["Nstd.Avl.Props", "Nstd.Avl.PropsK", "Nstd.Avl.PropsIds"]
+PROPS = ["Nstd.Avl.Props", "Nstd.Avl.PropsK", "Nstd.Avl.PropsIds", "Nstd.Avl.PropsRot"]
 LEAN_TARGETS = PROPS + ["drv_avl"]
 DRIVER = "drv_avl"
 
 # ---- translator: pool constants of the current sources -> lean/Nstd/Generated/AvlConst.lean -------------------
 GEN_OUT = C.LEAN / "Nstd" / "Generated" / "AvlConst.lean"
+GEN_ROT = C.LEAN / "Nstd" / "Generated" / "AvlRot.lean"
 HEADERS = {"Map": "include/nstd/Map.hpp", "Multi": "include/nstd/MultiMap.hpp"}
 
 
@@ -77,7 +79,12 @@ def translate(repo=None):
     GEN_OUT.parent.mkdir(parents=True, exist_ok=True)
     if not GEN_OUT.exists() or GEN_OUT.read_text() != text:
         GEN_OUT.write_text(text)
-    return True, f"items per block Map:{k['Map']} MultiMap:{k['Multi']}"
+    # the pointer code of updateHeightAndSlope / rotr / rotl / shiftr / shiftl / rebal -> Generated/AvlRot.lean
+    try:
+        rot = gen_avl.generate(repo or C.REPO, GEN_ROT)
+    except gen_avl.Refuse as e:
+        return False, f"rotation code not translatable: {e}"
+    return True, f"items per block Map:{k['Map']} MultiMap:{k['Multi']}; rotation code: {rot}"
 
 
 def gen(ctx):
